@@ -97,7 +97,8 @@ func (sfc *StructFieldsCopy) createFieldSnippet(f *types.Var) snippet.Snippet {
 			}
 		}
 
-		if fc.InSamePkg {
+		// a field of interface type is assigned, nothing is generated for it
+		if _, isInterface := x.Underlying().(*types.Interface); fc.InSamePkg && !isInterface {
 			if sfc.OnLocalDep != nil {
 				sfc.OnLocalDep(x)
 			}
